@@ -179,6 +179,16 @@ CLAIMED = {
              "'no error diagnostic' on all their generated valid programs",
         ref="DESIGN.md section 5 C07",
     ),
+    "C11": dict(
+        text="About 16 000 declarations generated from a grammar (8 type keywords x kind/len selectors incl. nested parentheses x module "
+             "variable / dummy / local x attribute subsets in both orders x entity dimension / character length / PARAMETER value x 6 "
+             "documentation placements) are indexed by the real server; hover must restate type+selector, the attribute set with arguments, "
+             "name, value and exactly that entity's documentation while the neighbours keep theirs. Signature help at 20 cursor positions "
+             "(positional, keywords in any order, nested parentheses): parameters in declared order with their declarations, right active parameter.",
+        note="(type, selector, context) / (call, position) indices are symbolic and forked by the solver, the rest enumerated concretely; "
+             "comparison is case- and blank-insensitive; attributes outside KEYWORD_LIST and multi-entity declarations outside",
+        ref="DESIGN.md section 5 C11",
+    ),
 }
 
 NOT_APPLICABLE = {
